@@ -500,6 +500,9 @@ func (t *wScreen) Resume() error {
 	}
 	t.running = true
 
+	// Suspend cleared the page: every cell has to be painted again
+	t.cells.Invalidate()
+
 	t.enableMouse(t.mouseFlags)
 	t.enablePasting(t.pasteEnabled)
 
